@@ -125,8 +125,15 @@ func DialerDial(d *websocket.Dialer, url string, hdr http.Header) (*websocket.Co
 var NextUpgrade *websocket.Conn
 var Upgrades int
 
+// UpgradeSubprotocols: the subprotocol list of the upgrader used by the last Upgrade (the server's answer names
+// the first of them that the client offered); UpgradeChecksOrigin: whether it carried an origin check.
+var UpgradeSubprotocols []string
+var UpgradeChecksOrigin bool
+
 func UpgraderUpgrade(u *websocket.Upgrader, w http.ResponseWriter, r *http.Request, hdr http.Header) (*websocket.Conn, error) {
 	Upgrades++
+	UpgradeSubprotocols = append([]string{}, u.Subprotocols...)
+	UpgradeChecksOrigin = u.CheckOrigin != nil
 	if NextUpgrade == nil {
 		return nil, errors.New("vws: upgrade failed")
 	}
@@ -169,5 +176,7 @@ func Reset() {
 	DialOutcome = nil
 	NextUpgrade = nil
 	Upgrades = 0
+	UpgradeSubprotocols = nil
+	UpgradeChecksOrigin = false
 	HTTPErrors = nil
 }
